@@ -321,9 +321,14 @@ def _resolve(root, path):
     return o
 
 
-def step_dup(cls_name, mask, n1, n2, rep):
+# nodes a visitor may return: the walker must put ANY returned node into the visited slot (empty containers, zero / NULL constants, stars)
+REPL_KINDS = [lambda: A.Identifier(parts=['R']), lambda: A.Tuple(items=[]), lambda: A.Constant(0), lambda: A.NullConstant(), lambda: A.Star(),
+              lambda: A.Constant(''), lambda: A.Function(op='r', args=[])]
+
+
+def step_dup(cls_name, mask, n1, n2, rep, rk=0):
     """like step(), but all expression markers print the same text, so siblings are structurally equal; visits and the
-    effect of a replacement are judged by object identity and by slot paths"""
+    effect of a replacement are judged by object identity and by slot paths; rk chooses the kind of node the visitor returns"""
     c0 = Ctx(mask, n1, n2)
     ref = BUILDERS[cls_name](c0)
     order0 = [m.group(0) for m in MARK.finditer(ref.to_string())]
@@ -336,7 +341,7 @@ def step_dup(cls_name, mask, n1, n2, rep):
         return ['spec: slot paths do not cover every marker: %s vs %s' % (sorted(paths), sorted(c.flags))]
     visited = []
     state = {'seen': 0, 'replaced': None}
-    repl = A.Identifier(parts=['R'])
+    repl = REPL_KINDS[rk]()
 
     def cb(n, is_table=False, is_target=False, **kw):
         if id(n) in c.objs:
